@@ -1,6 +1,7 @@
 package main
 
 import (
+	"math/rand"
 	"os"
 	"runtime/debug"
 	"strings"
@@ -22,6 +23,9 @@ type Options struct {
 	NoIfConv       bool     `json:"no_ifconv"`
 	ModeB          bool     `json:"mode_b"`
 	FixedHdr       bool     `json:"fixed_hdr"`
+	ConcreteRuns   int      `json:"concrete_runs"` // differential mode: this many runs on pseudo-random concrete draws
+	ConcreteSeed   int64    `json:"concrete_seed"`
+	ConcreteU8Max  int      `json:"concrete_u8_max"` // differential mode: u8 draws are uniform in 0..max (0: default mix)
 	HdrLen         int      `json:"hdr_len"` // mode A: every thrift blob has this many bytes (long headers / footers)
 	PoolStale      int      `json:"pool_stale"`
 	MonitorPool    bool     `json:"monitor_pool"`
@@ -76,6 +80,7 @@ type JobResult struct {
 	Stopped      bool                  `json:"stopped_after_violations"`
 	SolverErrors []string              `json:"solver_errors"`
 	Samples      []Sample              `json:"samples"`
+	Concrete     []ConcreteRun         `json:"concrete_runs,omitempty"`
 	DistinctNotes int                  `json:"distinct_notes"`
 	noteSet      map[string]bool
 	Wall         float64               `json:"wall_s"`
@@ -96,8 +101,20 @@ type Transcript struct {
 }
 
 type workItem struct {
-	jr     *JobResult
-	prefix []int
+	jr       *JobResult
+	prefix   []int
+	concrete int // > 0: differential run number (concrete draws), 0: symbolic
+}
+
+// ConcreteRun is one run of the harness on concrete pseudo-random draws;
+// the native build must produce the same observations from the same draws.
+type ConcreteRun struct {
+	Run     int      `json:"run"`
+	Draws   []Draw   `json:"draws"`
+	Obs     []string `json:"obs"`
+	Aborted bool     `json:"aborted"`
+	Failed  []string `json:"failed"`
+	Panic   string   `json:"panic,omitempty"`
 }
 
 type Explorer struct {
@@ -232,6 +249,11 @@ func (e *Explorer) runPath(m *Machine, it workItem) {
 	m.misaligned = nil
 	m.poolGets, m.zeroReads = 0, 0
 	m.poolCap = -1
+	m.concrete = nil
+	m.obs = nil
+	if it.concrete > 0 {
+		m.concrete = rand.New(rand.NewSource(opt.ConcreteSeed*1000003 + int64(it.concrete)))
+	}
 	m.skipPhi, m.inArm = false, false
 	m.Labels = map[string]*labelStat{}
 	m.FuncsSeen = map[string]int{}
@@ -301,6 +323,9 @@ func (e *Explorer) runPath(m *Machine, it workItem) {
 
 	// queue alternatives
 	var items []workItem
+	if it.concrete > 0 {
+		m.newAlts = nil
+	}
 	for _, a := range m.newAlts {
 		items = append(items, workItem{jr: jr, prefix: a})
 	}
@@ -308,6 +333,19 @@ func (e *Explorer) runPath(m *Machine, it workItem) {
 
 	jr.mu.Lock()
 	defer jr.mu.Unlock()
+	if it.concrete > 0 {
+		cr := ConcreteRun{Run: it.concrete, Draws: append([]Draw{}, m.draws...), Obs: m.obs, Aborted: aborted || unsupported != ""}
+		for _, v := range m.pathViol {
+			if v.Kind == "panic" {
+				cr.Panic = v.Msg
+			}
+			cr.Failed = append(cr.Failed, v.Label)
+		}
+		jr.Concrete = append(jr.Concrete, cr)
+		jr.Paths-- // differential runs are not paths of the symbolic exploration
+		jr.busy += time.Since(pathStart)
+		return
+	}
 	jr.busy += time.Since(pathStart)
 	jr.Steps += m.steps
 	jr.Obligs += m.Obligs
@@ -422,6 +460,12 @@ func runJobs(prog *ssa.Program, pkgs map[string]*ssa.Package, jobs []Job, worker
 	e.stacks = map[*JobResult][]workItem{}
 	for _, jr := range results {
 		e.order = append(e.order, jr)
+		if jr.job.Opt.ConcreteRuns > 0 {
+			for i := jr.job.Opt.ConcreteRuns; i >= 1; i-- {
+				e.stacks[jr] = append(e.stacks[jr], workItem{jr: jr, concrete: i})
+			}
+			continue
+		}
 		e.stacks[jr] = []workItem{{jr: jr}}
 	}
 	var wg sync.WaitGroup
